@@ -4,6 +4,7 @@ package main
 
 import (
 	"fmt"
+	"go/constant"
 	"go/types"
 	"regexp"
 	"sort"
@@ -270,7 +271,43 @@ func (x *Exec) setResult(instr ssa.Value, results []Term) {
 	}
 }
 
+// regexPatternOf: the constant pattern of the package-level *regexp.Regexp the call's receiver was loaded from
+func (x *Exec) regexPatternOf(c *ssa.CallCommon) (string, bool) {
+	if c == nil || len(c.Args) == 0 {
+		return "", false
+	}
+	u, ok := c.Args[0].(*ssa.UnOp)
+	if !ok {
+		return "", false
+	}
+	g, ok := u.X.(*ssa.Global)
+	if !ok {
+		return "", false
+	}
+	initFn := g.Pkg.Func("init")
+	if initFn == nil {
+		return "", false
+	}
+	for _, b := range initFn.Blocks {
+		for _, in := range b.Instrs {
+			st, ok := in.(*ssa.Store)
+			if !ok || st.Addr != g {
+				continue
+			}
+			call, ok := st.Val.(*ssa.Call)
+			if !ok || len(call.Call.Args) != 1 {
+				continue
+			}
+			if k, ok := call.Call.Args[0].(*ssa.Const); ok && k.Value != nil {
+				return constant.StringVal(k.Value), true
+			}
+		}
+	}
+	return "", false
+}
+
 func (x *Exec) execCall(instr ssa.Value, c *ssa.CallCommon, st *State, pc Term) {
+	x.curCall = c
 	pos := x.posStr(c.Pos())
 	if b, ok := c.Value.(*ssa.Builtin); ok {
 		x.execBuiltin(instr, b, c, st, pc)
@@ -308,6 +345,18 @@ func (x *Exec) execCall(instr ssa.Value, c *ssa.CallCommon, st *State, pc Term) 
 	}
 	for _, a := range c.Args {
 		args = append(args, x.argValue(a, callee, st))
+	}
+	if x.fc != nil && x.fc.CallAsserts != nil && callee.Pkg != nil {
+		for _, ca := range x.fc.CallAsserts[callee.RelString(callee.Pkg.Pkg)] {
+			env := &Env{x: x, cur: st, old: x.entry, vars: map[string]SVal{}, pkg: x.pkg, fn: x.fn}
+			for k, v := range x.params {
+				env.vars[k] = v
+			}
+			bindParams(x, env, callee, args, st)
+			goal := x.evalClause(env, ca)
+			x.nsafety++
+			x.vc.oblige(&Obligation{Name: fmt.Sprintf("%s#%d", ca.Name, x.nsafety), Kind: "call-assert", Tags: ca.Tags, Goal: goal, PC: pc, Src: ca.Src, Pos: pos, Observe: x.observations()})
+		}
 	}
 	if fc := x.eng.contractFor(callee); fc != nil {
 		if len(bindings) > 0 {
@@ -352,6 +401,12 @@ func (x *Exec) applyExtern(instr ssa.Value, name string, rs *types.Tuple, args [
 		ufail("call to %s at %s: no contract and no extern declaration", name, pos)
 	}
 	x.assumedExterns[fmt.Sprintf("extern %s %s", ex.Name, ex.Kind)] = true
+	if ex.Pattern != "" {
+		got, ok := x.regexPatternOf(x.curCall)
+		if !ok || got != ex.Pattern {
+			ufail("regexp at %s: the assumed contract of %s was written for pattern %q but the code uses %q", pos, name, ex.Pattern, got)
+		}
+	}
 	var results []Term
 	switch ex.Kind {
 	case "havoc", "log":
@@ -377,6 +432,69 @@ func (x *Exec) applyExtern(instr ssa.Value, name string, rs *types.Tuple, args [
 			} else {
 				results = append(results, x.vc.define("ext_"+lastSeg(name), T(rsort, "(%s %s)", uf, strings.Join(ss, " "))))
 			}
+		}
+	case "calls:0", "calls:1", "calls:2":
+		// the extern invokes its function-valued argument any number of times: its frame is havocked
+		k := int(ex.Kind[len(ex.Kind)-1] - '0')
+		if k >= len(args) {
+			ufail("extern %s: no argument %d", name, k)
+		}
+		mc, ok := x.closures[args[k].S]
+		var cbFn *ssa.Function
+		var cbArgs []Term
+		if ok {
+			cbFn = mc.Fn.(*ssa.Function)
+			for _, b := range mc.Bindings {
+				cbArgs = append(cbArgs, x.operand(b, st))
+			}
+		} else {
+			for key, c := range x.w.fnConst {
+				if c == args[k].S {
+					cbFn = x.eng.funcs[key]
+				}
+			}
+		}
+		if cbFn == nil {
+			ufail("extern %s at %s: callback argument is not a known closure", name, pos)
+		}
+		cfc := x.eng.contractFor(cbFn)
+		if cfc == nil {
+			ufail("extern %s at %s: callback %s has no contract", name, pos, cbFn.Name())
+		}
+		env := &Env{x: x, cur: st, old: st, vars: map[string]SVal{}, pkg: cbFn.Pkg.Pkg}
+		for i, fv := range cbFn.FreeVars {
+			env.vars[fv.Name()] = SVal{T: cbArgs[i], Ty: goT(fv.Type())}
+		}
+		for _, p := range cbFn.Params {
+			env.vars[p.Name()] = SVal{T: x.vc.fresh("cb_"+p.Name(), x.w.sortOf(p.Type())), Ty: goT(p.Type())}
+		}
+		pre := st.clone()
+		env.cur, env.old = pre, pre
+		fr := x.evalModifies(cfc, env)
+		x.havocFrame(st, fr, name)
+		for i := 0; i < rs.Len(); i++ {
+			results = append(results, x.vc.fresh("ext_"+lastSeg(name), x.w.sortOf(rs.At(i).Type())))
+		}
+		x.trusted["extern "+name+" calls its callback "+cbFn.Name()+" only with arguments satisfying the callback's precondition (documented calling convention), any number of times"] = true
+	case "decode:0", "decode:1", "decode:2":
+		// writes an arbitrary value of the pointee type through the (boxed) pointer argument
+		k := int(ex.Kind[len(ex.Kind)-1] - '0')
+		if k >= len(args) {
+			ufail("extern %s: no argument %d", name, k)
+		}
+		bv, ok := x.boxOf[args[k].S]
+		var ptr Term
+		var pt *types.Pointer
+		if ok {
+			ptr = bv.T
+			pt, _ = bv.Ty.Underlying().(*types.Pointer)
+		}
+		if pt == nil {
+			ufail("extern %s at %s: argument %d is not a boxed pointer", name, pos, k)
+		}
+		x.deepHavoc(st, ptr, pt.Elem(), map[string]bool{})
+		for i := 0; i < rs.Len(); i++ {
+			results = append(results, x.vc.fresh("ext_"+lastSeg(name), x.w.sortOf(rs.At(i).Type())))
 		}
 	case "noreturn":
 		x.vc.assume(not(pc), "call to "+name+" does not return")
@@ -426,6 +544,59 @@ func (x *Exec) applyExtern(instr ssa.Value, name string, rs *types.Tuple, args [
 		}
 	}
 	x.setResult(instr, results)
+}
+
+// deepHavoc: the object at ptr (of type t) and everything reachable from it by type becomes arbitrary.
+func (x *Exec) deepHavoc(st *State, ptr Term, t types.Type, seen map[string]bool) {
+	a := x.ptrAddr(ptr, t)
+	x.storeAddr(st, a, x.vc.fresh("decoded", x.w.sortOf(t)))
+	x.havocReachable(st, t, seen)
+}
+
+func (x *Exec) havocReachable(st *State, t types.Type, seen map[string]bool) {
+	key := canonType(t)
+	if seen[key] {
+		return
+	}
+	seen[key] = true
+	switch u := t.Underlying().(type) {
+	case *types.Struct:
+		for i := 0; i < u.NumFields(); i++ {
+			x.havocReachable(st, u.Field(i).Type(), seen)
+		}
+	case *types.Slice:
+		hn, hs := x.sliceHeap(u.Elem())
+		x.heapInit(hn, hs)
+		st.heaps[hn] = x.vc.fresh(heapSym(hn)+"_dec", hs)
+		x.havocReachable(st, u.Elem(), seen)
+	case *types.Array:
+		x.havocReachable(st, u.Elem(), seen)
+	case *types.Map:
+		mv, mp, mvS, mpS, _, _ := x.mapHeaps(u)
+		x.heapInit(mv, mvS)
+		x.heapInit(mp, mpS)
+		st.heaps[mv] = x.vc.fresh(heapSym(mv)+"_dec", mvS)
+		nmp := x.vc.fresh(heapSym(mp)+"_dec", mpS)
+		_, inner := mpS.arrayParts()
+		x.vc.assume(eq(sel(nmp, tNil), constArray(inner, tFalse)), "nil map is empty")
+		st.heaps[mp] = nmp
+		x.havocReachable(st, u.Key(), seen)
+		x.havocReachable(st, u.Elem(), seen)
+	case *types.Pointer:
+		if _, isStruct := u.Elem().Underlying().(*types.Struct); isStruct {
+			stt := u.Elem().Underlying().(*types.Struct)
+			for i := 0; i < stt.NumFields(); i++ {
+				hn, hs := x.fieldHeap(u.Elem(), i)
+				x.heapInit(hn, hs)
+				st.heaps[hn] = x.vc.fresh(heapSym(hn)+"_dec", hs)
+			}
+		} else {
+			hn, hs := x.ptrHeap(u.Elem())
+			x.heapInit(hn, hs)
+			st.heaps[hn] = x.vc.fresh(heapSym(hn)+"_dec", hs)
+		}
+		x.havocReachable(st, u.Elem(), seen)
+	}
 }
 
 func boolInt(b bool) int {
@@ -720,6 +891,13 @@ func (x *Exec) verify() {
 	for _, fv := range fn.FreeVars {
 		addParam(fv.Name(), fv.Type(), fv)
 	}
+	for _, ax := range x.eng.cf.Axioms {
+		if ax.Kind == "axiom:"+fn.Pkg.Pkg.Path() {
+			env := &Env{x: x, cur: x.entry, old: x.entry, vars: map[string]SVal{}, pkg: x.pkg}
+			x.vc.assume(x.evalClause(env, ax), "axiom "+ax.Name)
+			x.trusted["axiom "+ax.Name+": "+ax.Src] = true
+		}
+	}
 	if x.fc != nil {
 		env := x.newEnv(x.entry, x.entry)
 		for _, l := range x.fc.Lets {
@@ -729,6 +907,22 @@ func (x *Exec) verify() {
 		}
 		for _, c := range x.fc.Requires {
 			x.vc.assume(x.evalClause(env, c), "precondition "+c.Name)
+		}
+		if len(x.fc.GhostEntry) > 0 {
+			// ghost code at function entry (the body then runs from the updated ghost state; `old` is the state before)
+			x.start = x.entry.clone()
+			genv := x.newEnv(x.entry, x.entry)
+			for k, v := range env.vars {
+				genv.vars[k] = v
+			}
+			for _, ga := range x.fc.GhostEntry {
+				gd := x.eng.ghostDecl(ga.Name)
+				if gd == nil {
+					sfail("ghost entry assigns unknown ghost %s", ga.Name)
+				}
+				ty := x.resolveType(gd.Type, x.pkg)
+				x.start.ghosts[ga.Name] = genv.coerce(genv.eval(ga.E), ty).T
+			}
 		}
 	}
 	for _, b := range x.order {
